@@ -17,11 +17,17 @@ KEYWORD_IDENTS = {"current_date", "current_time", "current_timestamp", "localtim
 
 class Cols:
     """Column list of a relation: known names + open flag (may have more)."""
-    __slots__ = ("names", "open")
+    __slots__ = ("names", "open", "orig")
 
     def __init__(self, names=None, open_=False):
-        self.names = [n.lower() if isinstance(n, str) else n for n in (names or [])]
+        self.orig = list(names or [])
+        self.names = [n.lower() if isinstance(n, str) else n for n in self.orig]
         self.open = open_
+
+    def without(self, excl):
+        """the columns that `* EXCLUDE (..)` / `* EXCEPT (..)` leaves (every column of an excluded name goes)"""
+        ex = {e.lower() for e in excl}
+        return [o for o, n in zip(self.orig, self.names) if n not in ex]
 
     def has(self, c):
         return self.open or c.lower() in self.names
@@ -87,11 +93,39 @@ def _agg_and_bare(proj):
     return found["agg"], found["bare"]
 
 
+def wildcard_exclusions(opts):
+    """options of a `*` / `t.*` item -> (list of excluded names, understood?)"""
+    if not isinstance(opts, dict):
+        return [], True
+    for k in ("opt_ilike", "opt_rename", "opt_replace"):
+        if opts.get(k) is not None:
+            return [], False
+    names = []
+    ex = opts.get("opt_exclude")
+    if ex is not None:
+        if isinstance(ex, dict) and "Multiple" in ex:
+            names += [ident_value(i) for i in ex["Multiple"]]
+        elif isinstance(ex, dict) and "Single" in ex:
+            names.append(ident_value(ex["Single"]))
+        else:
+            return [], False
+    ec = opts.get("opt_except")
+    if ec is not None:
+        if isinstance(ec, dict) and "first_element" in ec:
+            names.append(ident_value(ec["first_element"]))
+            names += [ident_value(i) for i in ec.get("additional_elements") or []]
+        else:
+            return [], False
+    if not all(isinstance(n, str) for n in names):
+        return [], False
+    return names, True
+
+
 class Binder:
     misplaced = None
 
     def __init__(self, schema=None):
-        self.schema = {k.lower(): [c.lower() for c in v] for k, v in (schema or {}).items()} if schema is not None else None
+        self.schema = {k.lower(): list(v) for k, v in (schema or {}).items()} if schema is not None else None
         self.problems = []
         self.stats = {"selects": 0, "ctes": 0, "derived": 0, "refs_checked": 0, "refs_open": 0}
 
@@ -218,11 +252,18 @@ class Binder:
         out_names, out_open = [], False
         for item in proj:
             if item == "Wildcard" or (isinstance(item, dict) and "Wildcard" in item):
+                excl, understood = wildcard_exclusions(item.get("Wildcard") if isinstance(item, dict) else None)
+                if not understood:
+                    out_open = True
                 for (_, c) in scope:
-                    out_names += c.names
+                    out_names += c.without(excl)
                     out_open = out_open or c.open
                 if not scope:
                     out_open = True
+                elif excl and not any(c.open for (_, c) in scope):
+                    for x in excl:
+                        if not any(c.has(x) for (_, c) in scope):
+                            self.problem("excluded_column_unknown", "* EXCLUDE (%s) but no relation in scope has that column" % x)
                 continue
             if isinstance(item, dict) and "QualifiedWildcard" in item:
                 qw = item["QualifiedWildcard"]
@@ -243,8 +284,13 @@ class Binder:
                         self.problem("unknown_relation", "%s.* but no relation %r in FROM" % (nm, nm))
                     out_open = True
                 else:
-                    out_names += rel[0].names
-                    out_open = out_open or rel[0].open
+                    excl, understood = wildcard_exclusions(qw[1] if len(qw) > 1 else None)
+                    out_names += rel[0].without(excl)
+                    out_open = out_open or rel[0].open or not understood
+                    if not rel[0].open:
+                        for x in excl:
+                            if not rel[0].has(x):
+                                self.problem("excluded_column_unknown", "%s.* EXCLUDE (%s) but %s has columns %r" % (nm, x, nm, rel[0].names[:12]))
                 continue
             if isinstance(item, dict) and "UnnamedExpr" in item:
                 e = item["UnnamedExpr"]
@@ -376,8 +422,10 @@ def bind(ast, schema=None):
     b.misplaced = []
     if not isinstance(ast, list) or len(ast) != 1 or not isinstance(ast[0], dict) or "Query" not in ast[0]:
         return {"problems": [{"kind": "not_single_query", "detail": "statement is not exactly one query"}], "stats": b.stats}
+    out = None
     try:
-        b.query(ast[0]["Query"], {})
+        out = b.query(ast[0]["Query"], {})
     except Exception as ex:   # monitor bug => no verdict from it
         return {"problems": [], "stats": b.stats, "monitor_error": repr(ex), "ambiguous": [], "misplaced_aggregate": []}
-    return {"problems": b.problems, "stats": b.stats, "ambiguous": b.ambiguous, "misplaced_aggregate": b.misplaced}
+    return {"problems": b.problems, "stats": b.stats, "ambiguous": b.ambiguous, "misplaced_aggregate": b.misplaced,
+            "out": {"names": list(out.orig), "open": bool(out.open)} if out is not None else None}
